@@ -191,6 +191,12 @@ static void h_elias_dec(const vcase *c) {
     size_t cap = (size_t)arg_u64(c, 3);
     if (bits > len * 8) bits = len * 8;
     size_t give = (bits + 7) / 8;
+    /* the bits of the last byte after the declared bit count are not input:
+     * under --poison they carry the poison pattern instead of the case's bits */
+    if (vdrv_poison() && (bits & 7) && give) {
+        uint8_t keep = (uint8_t)(0xFF << (8 - (bits & 7)));
+        b[give - 1] = (uint8_t)((b[give - 1] & keep) | ((uint8_t)vdrv_poison() & (uint8_t)~keep));
+    }
     gpage in = gpage_new(b, give);
     gbuf o = out_values(cap);
     size_t d = dec_array(gamma, in.p, bits, (uint64_t *)o.p, cap);
